@@ -457,6 +457,65 @@ func ruleG1b(r *Run) {
 		})
 		r.Check(robj != nil && stored, key, fd.Pos(), `retried := GetInt("retried") + 1; Set("retried", retried)`, "OnRetry no longer increments the call's `retried` item by exactly one and stores it back: the budget `retried < retry` is never reached (endless retries) or skipped")
 	}
+	ruleG1bRetry(r)
+}
+func ruleG1bRetry(r *Run) {
+	p := r.P
+	fd, pkg := p.DeclOf("rpc/plugins/cluster", "Cluster.Handler")
+	key := "the retry is reached only through OnRetry in rpc/plugins/cluster.Cluster.Handler"
+	if fd == nil {
+		r.Undec(key, 0, "not found")
+		return
+	}
+	info := pkg.TypesInfo
+	self, _ := info.Defs[fd.Name].(*types.Func)
+	parents := parentMap(fd.Body)
+	var rec *ast.CallExpr
+	ast.Inspect(fd.Body, func(n ast.Node) bool {
+		if c, ok := n.(*ast.CallExpr); ok && Callee(info, c) == self {
+			rec = c
+		}
+		return true
+	})
+	if rec == nil {
+		r.Undec(key, fd.Pos(), "no recursive retry call")
+		return
+	}
+	nonNil := false
+	for _, fc := range collectFacts(parents, rec) {
+		be, ok := fc.e.(*ast.BinaryExpr)
+		if !ok {
+			continue
+		}
+		if fv := fieldOf(info, be.X); fv == nil || fv.Name() != "OnRetry" {
+			continue
+		}
+		if (be.Op == token.NEQ && !fc.neg) || (be.Op == token.EQL && fc.neg) {
+			nonNil = true
+		}
+	}
+	called := false
+	ast.Inspect(fd.Body, func(n ast.Node) bool {
+		if c, ok := n.(*ast.CallExpr); ok && c.Pos() < rec.Pos() {
+			if fv := fieldOf(info, c.Fun); fv != nil && fv.Name() == "OnRetry" {
+				// unconditional with respect to the retry: the call is not nested in an if that the retry is outside of
+				okDom := true
+				for n2 := parents[ast.Node(c)]; n2 != nil; n2 = parents[n2] {
+					if ifs, ok := n2.(*ast.IfStmt); ok {
+						inside := rec.Pos() >= ifs.Pos() && rec.End() <= ifs.End()
+						if !inside {
+							okDom = false
+						}
+					}
+				}
+				if okDom {
+					called = true
+				}
+			}
+		}
+		return true
+	})
+	r.Check(nonNil && called, key, rec.Pos(), "c.OnRetry != nil and called before the retry", "the retry is re-sent on a path where c.OnRetry is nil or was not called: the `retried` item is advanced only inside the OnRetry callbacks, so with a configuration without OnRetry (FailfastConfig, a hand-written Config) an idempotent call with a retry budget is re-sent without limit")
 }
 
 func ruleP7(r *Run) {
@@ -559,4 +618,61 @@ func ruleP7(r *Run) {
 	}
 	_ = strings.TrimSpace
 	_ = packages.NeedName
+}
+
+// G10b (C16): failover moves to ANOTHER server.
+func init() {
+	register("G10b", "FailoverConfig's OnFailure never leaves the call on the server that has just failed: the URL it assigns is compared with the call's current URL (the rotation index is shared by all calls, so by itself it can come round to the failed server) and advanced once more when they are equal", 1, ruleG10b)
+}
+
+func ruleG10b(r *Run) {
+	p := r.P
+	fd, pkg := p.DeclOf("rpc/plugins/cluster", "FailoverConfig")
+	key := "failover target differs from the failed server"
+	if fd == nil {
+		r.Undec(key, 0, "FailoverConfig not found")
+		return
+	}
+	info := pkg.TypesInfo
+	// the OnFailure literal: config.OnFailure = func(ctx) {...}
+	var lit *ast.FuncLit
+	ast.Inspect(fd.Body, func(n ast.Node) bool {
+		as, ok := n.(*ast.AssignStmt)
+		if !ok || len(as.Lhs) != 1 || len(as.Rhs) != 1 {
+			return true
+		}
+		if fv := fieldOf(info, as.Lhs[0]); fv != nil && fv.Name() == "OnFailure" {
+			lit, _ = ast.Unparen(as.Rhs[0]).(*ast.FuncLit)
+		}
+		return true
+	})
+	if lit == nil {
+		r.Undec(key, fd.Pos(), "no OnFailure literal")
+		return
+	}
+	isCurURL := func(e ast.Expr) bool {
+		fv := fieldOf(info, e)
+		return fv != nil && fv.Name() == "URL"
+	}
+	assigns, compares := false, false
+	ast.Inspect(lit.Body, func(n ast.Node) bool {
+		switch x := n.(type) {
+		case *ast.AssignStmt:
+			for _, l := range x.Lhs {
+				if isCurURL(l) {
+					assigns = true
+				}
+			}
+		case *ast.BinaryExpr:
+			if (x.Op == token.EQL || x.Op == token.NEQ) && (isCurURL(x.X) || isCurURL(x.Y)) {
+				compares = true
+			}
+		}
+		return true
+	})
+	if !assigns {
+		r.Viol(key, lit.Pos(), "OnFailure no longer assigns the call's URL: failover does not move at all")
+		return
+	}
+	r.Check(compares, key, lit.Pos(), "candidate compared with the call's current URL", "OnFailure takes the next URL from the rotation index alone; the index is shared by all calls while every call starts at URLs[0], so with two servers every second failover selects the server that has just failed (run-confirmed: with retry:1 and the first server down, every second call fails although the second server is healthy)")
 }
